@@ -303,6 +303,27 @@ defop("frombits_shift", lambda ns, a, b, c: ns.rt.LinComb.from_bits([a, b, c]) >
 defop("unpack_pack", lambda ns, a, b, c: ns.pk.PackIntMod(8).pack(ns.pk.PackIntMod(8).unpack([a, b, c], 0)), ["I", "I", "I"], weight=0.15)
 
 
+# Python's numeric protocols applied to traced values (refused today: TypeError / ValueError; if ever supported, Python's meaning)
+import math as _math
+import operator as _operator
+def _refused_if_notimplemented(v):
+    # the library answers round() / floor() / ceil() / trunc() of an integer wire with the NotImplemented object (its way of
+    # saying "not supported" - the binary-operator convention used for a unary protocol): a refusal, like an exception
+    if v is NotImplemented:
+        raise TypeError("the library returned NotImplemented")
+    return v
+
+
+defop("pow3", lambda ns, x, e, m: _refused_if_notimplemented(pow(x, e, m)), ["IB", "i", "iI"], weight=0.15, params={1: ("k", 0, 6)})
+defop("int_of", lambda ns, x: _refused_if_notimplemented(int(x)), ["IBF"], weight=0.1)
+defop("round_of", lambda ns, x: _refused_if_notimplemented(round(x)), ["IBF"], weight=0.1)
+defop("round0_of", lambda ns, x: _refused_if_notimplemented(round(x, 0)), ["F"], weight=0.05)
+defop("floor_of", lambda ns, x: _refused_if_notimplemented(_math.floor(x)), ["IBF"], weight=0.1)
+defop("ceil_of", lambda ns, x: _refused_if_notimplemented(_math.ceil(x)), ["IBF"], weight=0.1)
+defop("trunc_of", lambda ns, x: _refused_if_notimplemented(_math.trunc(x)), ["IBF"], weight=0.1)
+defop("index_of", lambda ns, x: _refused_if_notimplemented(_operator.index(x)), ["IB"], weight=0.1)
+
+
 # unpacking bits that are already wires (pack.py: "lincomb in"): a single flag, a seed-like run of flags, a mixed record
 defop("unpack_bool", lambda ns, x: ns.pk.PackBool().unpack([x], 0), ["IB"], weight=0.2)
 defop("unpack_flags", lambda ns, a, b, c: ns.pk.PackRepeat(ns.pk.PackBool(), 3).unpack([a, b, c], 0), ["IB", "IB", "IB"], weight=0.2)
@@ -383,10 +404,36 @@ class Machine:
                 args = [self.vals[i] for i in stmt[2]]
                 if len(stmt) > 3 and stmt[3] == "inplace":
                     new = self.bind(INPLACE[stmt[1]](*args))
+                elif len(stmt) > 3 and stmt[3] == "try":
+                    # the program wraps the call in try/except and carries on if the library refuses it
+                    try:
+                        new = self.bind(opd.fn(ns, *args))
+                    except Exception:
+                        new = self.bind(None)
                 else:
                     new = self.bind(opd.fn(ns, *args))
             elif kind == "ignore":
                 ns.rt.ignore_errors(stmt[1])
+                new = []
+            elif kind == "setb":
+                # the program changes the global bitlength between two operations (the README: set it after the import)
+                ns.rt.bitlength = stmt[1]
+                self.cfg = dict(self.cfg, b=stmt[1])
+                new = []
+            elif kind == "fail":
+                # an operation the library refuses (or cannot do), caught by the program, which then carries on: whatever the
+                # refused call left half-done must not matter to the calls that follow
+                x = self.vals[stmt[2]]
+                b_ = self.cfg["b"]
+                acts = [lambda: x / 0, lambda: x.assert_eq(x + 1), lambda: x + "s", lambda: (x - x + 3).to_bits(1),
+                        lambda: ns.ar.Array([x, x])[ns.rt.PrivVal(7)], lambda: x < (1 << (b_ + 5)), lambda: ns.bo.LinCombBool(x - x + 2),
+                        lambda: ns.pk.PackIntMod(3).unpack([ns.bo.PrivValBool(1), ns.bo.PrivValBool(1)], 0), lambda: (x - x).assert_nonzero(),
+                        lambda: ns.rt.snark(lambda a: a)(1, k=2), lambda: x // 0, lambda: x % (x - x), lambda: x ** -1,
+                        lambda: ns.rt.add_guard(0), lambda: ns.rt.LinComb.from_bits([x, None]), lambda: ns.br.if_then_else(2, x, x)]
+                try:
+                    acts[stmt[1] % len(acts)]()
+                except Exception:
+                    pass
                 new = []
             elif kind == "guard":
                 _, form, ref, body = stmt
